@@ -669,11 +669,19 @@ def cl1(P, C):
                 continue   # constexpr product, decided by DP-7
             if not same_phase(a, b, f):
                 diffs.append("%s: %s  vs generic  %s" % (key, b, a))
+        # every statement of a core belongs to a phase or to the driver loop: a statement that matches no phase (a loop bound off by
+        # one, an extra store) would otherwise drop out of the comparison as long as a well-formed instance of its phase remains
+        stray = [t for t in sig if not any(re.match(pat, t) for _k, pat in PHASE_PATTERNS) and t.replace(" ", "") not in DRIVER_STATEMENTS]
+        if stray:
+            diffs.append("statement(s) that belong to no phase of the generic core: %s" % stray[:3])
         n += 1
         C.ob("CL-1", name, "clone-of-generic", not diffs, f.where(),
              "all phases agree with ndsplineeval_core<float>" if not diffs else "; ".join(diffs)[:600])
     return n
 
+
+DRIVER_STATEMENTS = {"(n=0)", "for(n=0;(n<(nchunks-1));(n++))", "for(n=0;(n<(nchunks<>-1));(n++))", "if(((++n)==nchunks))break", "if((++n)==nchunks)break",
+                     "while(1)", "while(true)"}
 
 PHASE_PATTERNS = [
     ("position-seed", r"^\(tablepos \+= \(\(centers\[n\] - ORD\((n|\*)\)\) \* strides\[n\]\)\)$"),
